@@ -261,7 +261,7 @@ theorem strats_canonical {α : Type} [DecidableEq α] (le : α → α → Bool)
 
 -- non-vacuity
 example : Running (⟨{ st := "population_creation", setupDone := true, created := true }, 0, 1, 3, []⟩ : Sim) :=
-  ⟨Or.inl rfl, rfl, rfl⟩
+  ⟨Or.inl rfl, rfl, rfl, rfl⟩
 example : writeCols [("a", 1), ("b", 2)] [("b", 5), ("c", 7)] = [("a", 1), ("b", 5), ("c", 7)] := by decide
 example : dedup [3, 1, 3, 2] = [1, 3, 2] := by decide
 
